@@ -41,6 +41,7 @@ type wkReply struct {
 	body          []byte
 	contentLength bool // send a Content-Length header
 	headers       map[string]string
+	extraHeaders  [][2]string // added after headers, so that a header can appear on several lines
 	err           bool
 }
 
@@ -61,6 +62,9 @@ func (s *scriptedTransport) RoundTrip(r *http.Request) (*http.Response, error) {
 	h := http.Header{}
 	for k, v := range rep.headers {
 		h.Set(k, v)
+	}
+	for _, kv := range rep.extraHeaders {
+		h.Add(kv[0], kv[1])
 	}
 	resp := &http.Response{StatusCode: rep.status, Status: fmt.Sprint(rep.status), Header: h, Body: io.NopCloser(strings.NewReader(string(rep.body))), Request: r, ProtoMajor: 1, ProtoMinor: 1, ContentLength: -1}
 	if rep.contentLength {
@@ -381,11 +385,30 @@ func c16WellKnown(c *mon.Ctx, st *scriptedTransport) {
 		"max-age-zero":      {"Cache-Control": "max-age=0"},
 		"both-expires-past": {"Cache-Control": "max-age=600", "Expires": "Mon, 02 Jan 2006 15:04:05 GMT"},
 	}
+	expS := exp.Format("Mon, 02 Jan 2006 15:04:05 MST")
+	extra := map[string][][2]string{
+		"two-cache-control-lines":          {{"Cache-Control", "public"}, {"Cache-Control", "max-age=100"}, {"Expires", expS}},
+		"two-cache-control-lines-reversed": {{"Cache-Control", "max-age=100"}, {"Cache-Control", "public"}, {"Expires", expS}},
+		"tab-after-comma":                  {{"Cache-Control", "public,\tmax-age=100"}, {"Expires", expS}},
+		"body-names-an-expiry":             {{"Cache-Control", "max-age=100"}},
+		"body-names-an-expiry-lower-case":  {{"Cache-Control", "max-age=100"}},
+	}
+	bodies := map[string][]byte{
+		"body-names-an-expiry":            []byte(`{"m.server":"d.example","CacheExpiresAt":99999999999}`),
+		"body-names-an-expiry-lower-case": []byte(`{"m.server":"d.example","cacheexpiresat":99999999999}`),
+	}
+	for name := range extra {
+		cases[name] = map[string]string{}
+	}
 	for name, hdrs := range cases {
-		c.Case("well-known-cache:"+name, map[string]any{"headers": hdrs}, func() {
+		c.Case("well-known-cache:"+name, map[string]any{"headers": hdrs, "more_headers": extra[name], "body": string(bodies[name])}, func() {
 			c.Nontrivial("wkcache|" + name)
+			rep := wkReply{status: 200, body: body, contentLength: true, headers: hdrs, extraHeaders: extra[name]}
+			if b, ok := bodies[name]; ok {
+				rep.body = b
+			}
 			st.mu.Lock()
-			st.wk = map[string]wkReply{"wk.example": {status: 200, body: body, contentLength: true, headers: hdrs}}
+			st.wk = map[string]wkReply{"wk.example": rep}
 			st.mu.Unlock()
 			before := time.Now().Unix()
 			res, err := fclient.LookupWellKnown(context.Background(), "wk.example")
@@ -417,6 +440,8 @@ func c16WellKnown(c *mon.Ctx, st *scriptedTransport) {
 				ok = in(before+1, after+1)
 			case "both-expires-past":
 				ok = in(before+600, after+600)
+			case "two-cache-control-lines", "two-cache-control-lines-reversed", "tab-after-comma", "body-names-an-expiry", "body-names-an-expiry-lower-case":
+				ok = in(before+100, after+100)
 			}
 			if !ok {
 				c.Failf("wellknown:cache-lifetime:"+name, "CacheExpiresAt = %d (now %d) for headers %v", res.CacheExpiresAt, after, hdrs)
@@ -445,6 +470,9 @@ func c16WellKnown(c *mon.Ctx, st *scriptedTransport) {
 		"oversized-no-length":   {status: 200, body: append([]byte(`{"m.server":"d.example"}`), []byte(strings.Repeat("\n", 51200))...), contentLength: false},
 		"exactly-50KiB":         {status: 200, body: append([]byte(`{"m.server":"d.example"}`), []byte(strings.Repeat(" ", 51200-24))...), contentLength: false},
 		"no-m.server":           {status: 200, body: []byte(`{}`), contentLength: true},
+		"lookalike-M.SERVER":    {status: 200, body: []byte(`{"M.SERVER":"d.example"}`), contentLength: true},
+		"lookalike-M.Server":    {status: 200, body: []byte(`{"M.Server":"d.example","other":1}`), contentLength: true},
+		"lookalike-m.ſerver":    {status: 200, body: []byte(`{"m.ſerver":"d.example"}`), contentLength: true},
 		"empty-body":            {status: 200, body: []byte(``), contentLength: true},
 	}
 	for name, rep := range guards {
@@ -656,6 +684,44 @@ func c16Policy(c *mon.Ctx, ds *dnsScript) {
 	c.Floor("real_dials", 20)
 }
 
+// c16WellKnownUnderPolicy: the policy holds "by whatever name they were reached", and the first thing a client does with
+// a DNS name is fetch its well-known file. With every address of the name denied, that fetch must not go out through a
+// transport that knows nothing of the lists (in this process: the scripted default transport, which records it).
+func c16WellKnownUnderPolicy(c *mon.Ctx, st *scriptedTransport, ds *dnsScript) {
+	for i, cfg := range [][2][]string{
+		{{"0.0.0.0/0", "::/0"}, {"127.0.0.0/8", "::1/128"}},
+		{{"10.0.0.0/8"}, {}},
+		{{"0.0.0.0/0"}, {"127.0.0.1/32"}},
+	} {
+		allow, deny := cfg[0], cfg[1]
+		name := fmt.Sprintf("wk-under-policy%d.example", i)
+		c.Case("policy:well-known-lookup", map[string]any{"allow": allow, "deny": deny, "name": name, "addresses": []string{"127.0.0.1"}}, func() {
+			c.Nontrivial("wk-policy|" + name)
+			ds.mu.Lock()
+			ds.a[name] = []string{"127.0.0.1"}
+			ds.mu.Unlock()
+			st.mu.Lock()
+			st.wk[name] = wkReply{status: 200, body: []byte(`{"m.server":"127.0.0.1:1"}`), contentLength: true, headers: map[string]string{}}
+			st.calls = nil
+			st.mu.Unlock()
+			cl := fclient.NewClient(fclient.WithAllowDenyNetworks(allow, deny), fclient.WithSkipVerify(true), fclient.WithWellKnownSRVLookups(true), fclient.WithTimeout(3*time.Second))
+			ctx, cancel := context.WithTimeout(context.Background(), 3*time.Second)
+			defer cancel()
+			_, _ = cl.GetServerKeys(ctx, spec.ServerName(name))
+			st.mu.Lock()
+			calls := append([]string{}, st.calls...)
+			delete(st.wk, name)
+			st.mu.Unlock()
+			c.Count("well_known_lookups_under_policy")
+			for _, call := range calls {
+				if strings.HasPrefix(call, name) {
+					c.Failf("policy:well-known-lookup-not-subject-to-lists", "with allow=%v deny=%v the client fetched https://%s through the default transport, i.e. connected to %s (127.0.0.1, forbidden by the lists) without consulting them", allow, deny, call, name)
+				}
+			}
+		})
+	}
+}
+
 func policyClass(allow, deny []string) string {
 	bad := func(l []string) string {
 		for i, e := range l {
@@ -686,4 +752,5 @@ func runC16(c *mon.Ctx) {
 	c16Resolutions(c, st, ds)
 	c16WellKnown(c, st)
 	c16Policy(c, ds)
+	c16WellKnownUnderPolicy(c, st, ds)
 }
